@@ -47,6 +47,7 @@ static int canary_ok(void *p, size_t n) {
   for (i = 0; i < CAN; i++) if (r[i] != CANBYTE || r[CAN + n + i] != CANBYTE) return 0;
   return 1;
 }
+static void direct_alloc_report(void);
 static void guard(const char *why, long id) {
   fprintf(tr, "{\"e\":\"guard\",\"why\":\"%s\",\"id\":%ld}\n", why, id); n_events++;
 }
@@ -219,6 +220,7 @@ void fn_end(void) {
   fn_resume(); fputs("}}\n", tr); fclose(tr); tr = tr_real; fn_mem = NULL;
   canary_sweep();
   fwrite(fn_buf, 1, fn_len, tr); free(fn_buf); tr_real = NULL; n_events++; n_calls++;
+  direct_alloc_report();
 }
 
 /* ------------------------------------------------------------------ */
@@ -293,6 +295,9 @@ static void pool_diff_emit(void) {
 
 void rec_reset(const char *drv, long exec_id, unsigned long seed) {
   int i;
+  /* a driver whose shape loop does not terminate must not fill the disk: hard cap on the events of one process */
+  { static long cap; if (!cap) { const char *e = getenv("VERIF_MAX_EVENTS"); cap = e ? atol(e) : 4000000L; }
+    if (n_events > cap) { fprintf(stderr, "harness: more than %ld events in one process (driver %s): runaway driver, aborting\n", cap, drv); if (tr) fflush(tr); _exit(5); } }
   heap_forget();
   mpf_set_default_prec(64);      /* documented global: back to its initial value, as MPIR!Reset assumes */
   for (i = 0; i < NZ; i++) zlive[i] = 0; for (i = 0; i < NQ; i++) qlive[i] = 0;
@@ -349,6 +354,7 @@ int do_call(const api_fn *f, arg_t *a, ret_t *r) {
   }
   pool_diff_emit();
   fputs("}\n", tr); n_events++; n_calls++;
+  direct_alloc_report();
   last_ret = *r;
   return sig;
 }
@@ -392,11 +398,35 @@ static gwchunk *gwc; static int ngw;
 #if defined(__SANITIZE_ADDRESS__) || defined(__SANITIZE_THREAD__)
 #define GW_OFF 1
 #endif
+/* direct use of the C allocator by library code (C04: all heap memory goes through the functions installed with
+   mp_set_memory_functions).  The harness is linked with --wrap=malloc/calloc/realloc/free; a wrapped call whose return address
+   lies in a .text chunk of libmpir.a is counted and reported as a guard event at the end of the call or fn event in progress. */
+typedef struct { uintptr_t lo, hi; } txr;
+static txr *txv; static int ntx; static volatile long direct_allocs; static volatile uintptr_t direct_ra;
+static void tx_load(const char *exe) {
+  char path[600], line[400]; FILE *f; snprintf(path, sizeof path, "%s.tx", exe); f = fopen(path, "r"); if (!f) return;
+  while (fgets(line, sizeof line, f)) { unsigned long a; long sz; if (sscanf(line, "%lx %ld", &a, &sz) != 2) continue;
+    txv = realloc(txv, (ntx + 1) * sizeof *txv); txv[ntx].lo = a; txv[ntx].hi = a + sz; ntx++; }
+  fclose(f);
+}
+static void from_lib(void *ra) { uintptr_t a = (uintptr_t)ra; int lo = 0, hi = ntx - 1;
+  while (lo <= hi) { int m = (lo + hi) / 2; if (a < txv[m].lo) hi = m - 1; else if (a >= txv[m].hi) lo = m + 1; else { direct_allocs++; direct_ra = a; return; } } }
+#ifndef GW_OFF
+void *__real_malloc(size_t); void *__real_calloc(size_t, size_t); void *__real_realloc(void *, size_t); void __real_free(void *);
+void *__wrap_malloc(size_t n) { if (ntx) from_lib(__builtin_return_address(0)); return __real_malloc(n); }
+void *__wrap_calloc(size_t a, size_t b) { if (ntx) from_lib(__builtin_return_address(0)); return __real_calloc(a, b); }
+void *__wrap_realloc(void *p, size_t n) { if (ntx) from_lib(__builtin_return_address(0)); return __real_realloc(p, n); }
+void __wrap_free(void *p) { if (ntx) from_lib(__builtin_return_address(0)); __real_free(p); }
+#endif
+static void direct_alloc_report(void) {
+  if (direct_allocs) { fprintf(tr, "{\"e\":\"guard\",\"why\":\"library code called the C allocator directly (not through mp_set_memory_functions), return address %lx\",\"id\":%ld}\n", (unsigned long)direct_ra, (long)direct_allocs); n_events++; direct_allocs = 0; }
+}
 void gw_load(const char *exe) {
   char path[600], line[400]; FILE *f;
 #ifdef GW_OFF
   return;       /* sanitizer builds pad globals with red zones: the linker-map chunks are not plain memory there */
 #endif
+  tx_load(exe);
   snprintf(path, sizeof path, "%s.gw", exe); f = fopen(path, "r"); if (!f) return;
   while (fgets(line, sizeof line, f)) { unsigned long a; long sz; char nm[200];
     if (sscanf(line, "%lx %ld %199s", &a, &sz, nm) != 3) continue;
